@@ -49,4 +49,7 @@ class DjangoJsonRequest(JsonRequest):
 
     @cached_property
     def data(self):
-        return json_loads(self._request.body)
+        try:
+            return json_loads(self._request.body)
+        except (TypeError, ValueError):
+            return None
